@@ -20,8 +20,8 @@ member share theirs).  The three places where the code couples the columns are m
         mvms = matmul_closure(curr_conjugate_vec)
         (precond / no-precond update kernels)                           -- `colStepPre` / `colStepNoPre`
         residual_norm (masked by rhs_is_zero); has_converged
-        if k >= min(10, max_iter - 1) and mean < tolerance and not (n_tridiag and k < min(n_tridiag_iter, max_iter - 1)): break
         if n_tridiag and k < n_tridiag_iter and update_tridiag: ...     -- `triStep`
+        if k >= min(10, max_iter - 1) and mean < tolerance and not (n_tridiag and k < min(n_tridiag_iter, max_iter - 1)): break
     result = result.mul(rhs_norm); warn if not tolerance_reached and n_iter > 0
     t_mat[: last_tridiag_iter + 1, : last_tridiag_iter + 1]
 
@@ -242,7 +242,9 @@ def triCols (N : NumOps α) {n : Nat} (k : Nat)
 def offDiags {n : Nat} (k : Nat) (cs : List (Col α n × Tri α)) : List α :=
   (cs.map fun ct => if ct.2.on then [ct.2.t (k - 1) k] else []).flatten
 
-/-- `for k in range(n_iter)`: `fuel` iterations remain, the next one has index `k`. -/
+/-- `for k in range(n_iter)`: `fuel` iterations remain, the next one has index `k`.
+Order of the loop body (after the `fix:` commit be05109): kernel, residual norms, **tridiagonal block, then
+the tolerance exit** — so the tridiagonal entries of the last executed iteration are always written. -/
 def iterate (N : NumOps α) (P : Params α) {n : Nat} (sys : List (SysZ α n)) (nTriIter : Nat) :
     Nat → Nat → St α n → St α n
   | 0, _, st => st
@@ -250,15 +252,16 @@ def iterate (N : NumOps α) (P : Params α) {n : Nat} (sys : List (SysZ α n)) (
     let ps := st.cs.map fun ct => ct.1.p
     let cs1 := stepCols N P sys st.cs
     let st1 : St α n := { st with cs := cs1, iters := st.iters + 1, trace := ps :: st.trace }
-    if stopNow N P nTriIter k (cs1.map fun ct => ct.1.rn) then
-      { st1 with tolReached := true }
-    else if decide (0 < P.nTridiag) && decide (k < nTriIter) && st.updTri then
-      let cs2 := triCols N k cs1
-      let off := decide (k ≠ 0) && N.lt (lmax N (offDiags k cs2)) P.triOff
-      iterate N P sys nTriIter fuel (k + 1)
+    let st2 : St α n :=
+      if decide (0 < P.nTridiag) && decide (k < nTriIter) && st.updTri then
+        let cs2 := triCols N k cs1
+        let off := decide (k ≠ 0) && N.lt (lmax N (offDiags k cs2)) P.triOff
         { st1 with cs := cs2, lastTri := k, updTri := !off }
+      else st1
+    if stopNow N P nTriIter k (cs1.map fun ct => ct.1.rn) then
+      { st2 with tolReached := true }
     else
-      iterate N P sys nTriIter fuel (k + 1) st1
+      iterate N P sys nTriIter fuel (k + 1) st2
 
 /-- What a call returns / observably does. -/
 structure Out (α : Type) (n : Nat) where
